@@ -14,6 +14,7 @@ Section MutInd.
   Hypothesis Hx : forall n, P (MExit n).
   Hypothesis Hr : forall n, P (MReturn n).
   Hypothesis Hc : forall body, Forall P body -> P (MCall body).
+  Hypothesis Hb : forall how body, Forall P body -> P (MBg how body).
   Hypothesis Hs : forall c body, Forall P body -> P (MSub c body).
   Fixpoint mut_ind' (m : mut) : P m :=
     let go := fix go (l : list mut) : Forall P l :=
@@ -28,6 +29,7 @@ Section MutInd.
     | MExit n => Hx n
     | MReturn n => Hr n
     | MCall body => Hc body (go body)
+    | MBg how body => Hb how body (go body)
     | MSub c body => Hs c body (go body)
     end.
 End MutInd.
@@ -138,6 +140,9 @@ Proof.
   intros m. induction m using mut_ind'; intros w T; try discriminate; try reflexivity.
   - cbn [touches_pg] in T. pose proof (run_seq_pg o body w H T) as Hl.
     cbn [run_mut]. fold (run_list o body w). destruct (run_list o body w) as [w' fl]. exact Hl.
+  - cbn [touches_pg] in T. pose proof (run_seq_pg o body (clone_shell (fst w), snd w) H T) as Hl.
+    cbn [run_mut]. fold (run_list o body (clone_shell (fst w), snd w)).
+    destruct (run_list o body _) as [w' fl]. exact Hl.
   - cbn [touches_pg] in T. destruct (is_subshell o c) eqn:E.
     + rewrite run_sub_eq by exact E.
       pose proof (run_seq_pg o body (clone_shell (fst w), snd w) H T) as Hl.
@@ -190,6 +195,38 @@ Proof.
   intros o c body w H. rewrite run_sub_eq by exact H. destruct (run_list o body _) as [w' fl]. reflexivity.
 Qed.
 
+(** ** background jobs and their collection *)
+Lemma run_bg_eq o how body w :
+  run_mut o (MBg how body) w =
+  let '(w', fl) := run_list o body (clone_shell (fst w), snd w) in
+  ((cset status_field [lit "?"] (merge_back shell_clone_table (fst w) (fst w')), snd w'),
+   match how, fl with CollFg, Exited => Exited | _, _ => Go end).
+Proof. reflexivity. Qed.
+
+(** whatever the job does and however it is collected, the parent's cloned state is as before *)
+Theorem bg_preserves_cloned : forall o how body w f,
+  ~ In f known_shared -> flows_back f = false ->
+  cget f (fst (fst (run_mut o (MBg how body) w))) = cget f (fst w).
+Proof.
+  intros o how body w f Hk Hs. rewrite run_bg_eq.
+  destruct (run_list o body (clone_shell (fst w), snd w)) as [w' fl]. cbn [fst].
+  rewrite cget_cset_other.
+  - apply merge_back_other. rewrite shared_fields_known. exact Hk.
+  - unfold flows_back in Hs. intros ->. rewrite String.eqb_refl in Hs. discriminate.
+Qed.
+
+(** a job that ends with exit / return / break never ends the parent, for every way of collecting
+    it except `fg` *)
+Theorem bg_collect_contained_outside_known : forall o how body w,
+  how <> CollFg -> snd (run_mut o (MBg how body) w) = Go.
+Proof.
+  intros o how body w H. rewrite run_bg_eq. destruct (run_list o body _) as [w' fl]. cbn [snd].
+  destruct how, fl; try reflexivity; contradiction.
+Qed.
+
+Theorem bg_fg_refuted : exists o body w, snd (run_mut o (MBg CollFg body) w) = Exited.
+Proof. exists o_none, [MExit 3], (init_state, mkPg 18 1024 []). reflexivity. Qed.
+
 (** a function call absorbs `return`; it never hands `Returned` to its caller *)
 Theorem call_absorbs_return : forall o body w, snd (run_mut o (MCall body) w) <> Returned.
 Proof.
@@ -200,7 +237,7 @@ Qed.
     a non-final stage always; every context other than the last stage always; the last stage
     unless `lastpipe` is on and job control is off; with job control everything *)
 Theorem stage_classification :
-  (forall o, is_subshell o CPipeFirst = true) /\
+  (forall o, is_subshell o CPipeFirst = true /\ is_subshell o CPipeMid = true) /\
   (forall o c, c <> CPipeLast -> is_subshell o c = true) /\
   (forall o c, o_jobctl o = true -> is_subshell o c = true) /\
   (forall o c, o_lastpipe o = false -> is_subshell o c = true) /\
